@@ -194,6 +194,16 @@ anchor('ruler.remove_resets', ['C08', 'C07'], r'pub fn remove\(&mut self, mark: 
 anchor('inline.add_rule_resets', ['C08', 'C07'], r'pub fn add_rule<T: InlineRule>\(&mut self\) -> RuleBuilder<RuleFn> \{\s*self\.text_impl = OnceCell::new\(\);', inl)
 anchor('inline.remove_rule_resets', ['C08', 'C07'], r'pub fn remove_rule<T: InlineRule>\(&mut self\) \{\s*self\.text_impl = OnceCell::new\(\);', inl)
 
+# ------------------------------------------------------------------ look-ahead callers restore state.line (C16)
+RESTORE = r'let old_state_line = state\.line;\s*state\.line = next_line;\s*if state\.test_rules_at_line\(\) \{\s*state\.line = old_state_line;\s*break \'outer;\s*\}\s*state\.line = old_state_line;'
+for f in ('paragraph', 'lheading', 'reference'):
+    anchor('lookahead.%s_restores_line' % f, ['C16'], RESTORE, src('src/plugins/cmark/block/%s.rs' % f))
+anchor('lookahead.list_restores_line', ['C16'], r'let old_state_line = state\.line;\s*let terminate = state\.test_rules_at_line\(\);\s*state\.line = old_state_line;', src('src/plugins/cmark/block/list.rs'))
+anchor('lookahead.quote_resets_line', ['C16'], r'let old_line_max = state\.line_max;\s*state\.line = start_line;', src('src/plugins/cmark/block/blockquote.rs'))
+bq = src('src/plugins/cmark/block/blockquote.rs') + src('src/plugins/cmark/block/list.rs') + src('src/plugins/cmark/block/paragraph.rs') + src('src/plugins/cmark/block/lheading.rs') + src('src/plugins/cmark/block/reference.rs')
+expect('lookahead.callers_are_the_five', ['C16'], len(re.findall(r'test_rules_at_line\(\)', bq)) == 5 and sum(len(re.findall(r'test_rules_at_line\(\)', re.sub(r'//.*', '', open(f2, encoding='utf-8').read()))) for f2 in glob.glob(os.path.join(REPO, 'src', '**', '*.rs'), recursive=True)) == 5 + 0, 'test_rules_at_line is called from other places than the five modelled callers')
+anchor('codepair.cache_fields', ['C16', 'C11', 'C01'], r'struct CodePairCache<const MARKER: char> \{[^}]*scanned: bool,\s*scanned_from: usize,\s*scanned_to: usize,\s*max: Vec<usize>,[^}]*inside_failed: HashSet<usize>,\s*\}', src('src/generics/inline/code_pair.rs'))
+
 # ------------------------------------------------------------------ output
 text = ('/- GENERATED by extract/extract.py from /repo source on every run — do not edit. -/\n'
         'namespace MdIt.Gen.Consts\n\n' + '\n\n'.join(defs) + '\n\nend MdIt.Gen.Consts\n')
